@@ -846,12 +846,18 @@ fn header_reader_body(ch: &Chooser, docs: &[(&'static str, GHeader)]) -> Outcome
         }
         Err(f) if f.what == "harness" => vmc::machinery(format!("header_reader harness: {}", f.observed)),
         Err(f) => Err(Violation::new(
-            format!(
-                "stage=header-reader target={} layout={layout_name} mode={} what={}",
-                FMT_NAME(target),
-                mode.class(longest),
-                f.what
-            ),
+            // NUL padding handed out as text does not depend on how the adapter is driven: one class
+            if f.what == "nul-padding-delivered-as-header-text" {
+                format!("stage=header-reader target=bam layout={layout_name} mode=any what={}", f.what)
+            } else if target == Fmt::Sam
+                && f.what == "header-truncated"
+                && matches!(mode.class(longest).as_str(), "fill_buf/consume(partial)" | "read+fill_buf-mixed")
+            {
+                // a partial consume() on the BufRead side: one class, whatever the layout
+                "stage=header-reader target=sam layout=any mode=bufread-partial-consume what=header-truncated".to_string()
+            } else {
+                format!("stage=header-reader target={} layout={layout_name} mode={} what={}", FMT_NAME(target), mode.class(longest), f.what)
+            },
             describe(),
             f.expected,
             f.observed,
